@@ -78,6 +78,18 @@ def _n1(run: Run, w: World) -> None:
                         f"the internal name `{norm(arg, 50)}` given to {pat} is not a fresh next_name(<literal>) "
                         f"(depends on {sorted(sl.params | sl.free | (sl.calls - {'next_name'})) or 'a constant'}): two objects may get the same SymPy name and alias")
         run.sample({"site": f.qual, "constructor": pat, "names": [norm(c.args[idx], 40) for _, c in calls if len(c.args) > idx]})
+    # factory functions hand out a NEW object on every path: each returned value derives from a fresh next_name(...) call
+    for modname, path in (("symplyphysics.core.coordinate_systems.coordinate_systems", "coordinates_transform"),
+                          ("symplyphysics.core.coordinate_systems.coordinate_systems", "coordinates_rotate")):
+        f = Fn(w, modname, path)
+        for r in f.cfg.returns():
+            run.ob("N1", f"{f.qual}:return-fresh")
+            sl = f.slice(r, r.ast.value) if r.ast.value is not None else None
+            fresh = sl is not None and any(f.callee(node_of(f.cfg, cc) or r, cc) == NEXT_NAME for cc in sl.call_nodes)
+            if not fresh:
+                run.violate("N1", f"{f.qual}:return:{norm(r.ast, 50)}", f.mod, r.ast,
+                            f"{path} can return `{norm(r.ast.value, 40) if r.ast.value is not None else None}`, which is not a newly created coordinate system: the result "
+                            f"aliases an existing system (its base scalars and vectors are the same objects)")
     # VectorSymbol: identity hash and no name argument
     v = Fn(w, "symplyphysics.core.experimental.vectors", "VectorSymbol._hashable_content")
     run.ob("N1", "VectorSymbol._hashable_content")
